@@ -152,7 +152,9 @@ def _classes(case):
             c = build(sub)
             flds.append((kn, c, dataclasses.field(default_factory=c)))
         cls = dataclasses.make_dataclass(tree["cls"], flds, kw_only=True, module="c16_generated")  # no source to scan
-        cls.__doc__ = DOC.format(tree["cls"])
+        if tree.get("doc", "explicit") == "explicit":
+            cls.__doc__ = DOC.format(tree["cls"])
+        # else: keep the docstring `dataclasses` generated (the constructor signature)
         memo[tree["cls"]] = cls
         return cls
 
@@ -293,7 +295,7 @@ def observe(case, scratch, full=True):
                 act = p._option_string_actions.get(opts[0]) if opts else None
                 acts.append([fw.dest, list(act.option_strings) if act is not None else None,
                              sorted(k for k, a in p._option_string_actions.items() if a is act)])
-            groups.append([w.title, acts])
+            groups.append([w.title, acts, w.dataclass.__doc__])
         registered_dests = sorted(a.dest for a in p._actions)
         o["format_help_same"] = (p.format_help() == o["help"][3])
     else:
